@@ -194,8 +194,17 @@ pub fn tracker_body(step: &TrackerStep, plan: &Plan) -> (TrackerOutcome, String)
     }
 }
 
+/// Address of the well-formed entry with an out-of-range port (entry kind 5): whatever the client
+/// makes of it, it must not turn into another address.
+pub const BIG_PORT_ADDR: &str = "10.66.0.9:72417";
+
 fn malformed_entry(k: u32) -> B {
-    match k % 5 {
+    match k % 6 {
+        5 => B::Dict(vec![
+            (b"ip".to_vec(), B::s("10.66.0.9")),
+            (b"peer id".to_vec(), B::s("AAAAABBBBBCCCCCDDDDD")),
+            (b"port".to_vec(), B::Int(72417)),
+        ]),
         0 => B::Int(7),
         1 => B::Dict(vec![(b"ip".to_vec(), B::s("10.66.0.1")), (b"port".to_vec(), B::Int(7000))]),
         2 => B::Dict(vec![
